@@ -402,7 +402,8 @@ func (c *child) classify(obs map[string]bool) {
 // case used (sequence number base, payload pattern), so that garbage or
 // noise frames that happen to carry a tag are not blamed on another case.
 func seqBases(slot int) []uint32 {
-	return []uint32{uint32(1000 + slot), uint32(0x01000000 + slot*4099), uint32(0x02000000 + slot*4099), uint32(5000 + slot)}
+	return []uint32{uint32(1000 + slot), uint32(0x01000000 + slot*4099), uint32(0x02000000 + slot*4099), uint32(5000 + slot),
+		uint32(0x03000000 + slot*4099), uint32(0x04000000 + slot*4099)}
 }
 
 func (c *child) ownerTCP(d *dec) (int, bool) {
@@ -521,6 +522,11 @@ func (c *child) runCase(cs *Case, wantHex, dry bool) M {
 		}
 	case "tseq":
 		c.runTSeq(cs, slot, send, dry)
+	case "eseq":
+		if err := c.runESeq(cs, slot, send, dry); err != nil {
+			res["err"] = err.Error()
+			return res
+		}
 	case "press":
 		if !dry {
 			if err := c.runPress(cs, slot, obs); err != nil {
@@ -1019,6 +1025,121 @@ func (c *child) runPress(cs *Case, slot int, obs map[string]bool) error {
 		}
 	default:
 		vh.Fatal("pressure family %q", q)
+	}
+	return nil
+}
+
+// ------------------------------------------- sequences on an established connection
+// runESeq establishes a connection (passively through the listener, or opened
+// actively by the stack towards the peer), then plays the letters of the case
+// with the real sequence numbers.
+func (c *child) runESeq(cs *Case, slot int, send func(pkt), dry bool) error {
+	sk := gi(cs.C, "sk") == 1
+	k := &conn{v: 4, nic: 1, sport: tagPort(slot), dport: lstPort, iss: uint32(0x04000000 + slot*4099)}
+	k.snd, k.rcv = k.iss+1, 1
+	win := 65535
+	synOpts := wire.OptMSS(1400)
+	if sk {
+		synOpts = append(synOpts, 1, 1, 4, 2)
+	}
+	if !dry && gs(cs.C, "mode") == "pas" {
+		c.Inject(1, 0x0800, [][]byte{k.seg(wire.SYN, k.iss, 0, synOpts, nil)})
+		e, ok := c.Wait(matchTCP(k, func(d *dec) bool {
+			return d.flags&(wire.SYN|wire.ACK|wire.RST) == wire.SYN|wire.ACK && d.ack == k.iss+1
+		}), c.wait)
+		if !ok {
+			return fmt.Errorf("handshake: no SYN-ACK for port %d within %v", k.sport, c.wait)
+		}
+		k.irs, k.rcv, win = e.d.seq, e.d.seq+1, e.d.win
+		c.Inject(1, 0x0800, [][]byte{k.seg(wire.ACK, k.snd, k.rcv, nil, nil)})
+	} else if !dry { // the stack opens the connection towards the peer; the application echoes
+		peer, _, _ := addrs(4, 1)
+		wq := &waiter.Queue{}
+		ep, err := c.h.S.NewEndpoint(tcp.ProtocolNumber, tcpip.NetworkProtocolNumber(0x0800), wq)
+		if err != nil {
+			vh.Fatal("tcp endpoint: %v", err)
+		}
+		we, ch := waiter.NewChannelEntry(nil)
+		wq.EventRegister(&we, waiter.EventOut)
+		if err := ep.Connect(tcpip.FullAddress{NIC: 1, Addr: tcpip.Address(peer), Port: uint16(k.sport)}); err != nil && err != tcpip.ErrConnectStarted {
+			return fmt.Errorf("active open: Connect: %v", err)
+		}
+		e, ok := c.Wait(func(e *emit) bool {
+			return e.d.kind == "tcp" && e.d.v == 4 && e.d.dport == k.sport && e.d.flags&(wire.SYN|wire.ACK) == wire.SYN
+		}, c.wait)
+		if !ok {
+			return fmt.Errorf("active open: the stack sent no SYN within %v", c.wait)
+		}
+		k.dport, k.irs, k.rcv = e.d.sport, e.d.seq, e.d.seq+1
+		c.Inject(1, 0x0800, [][]byte{k.seg(wire.SYN|wire.ACK, k.iss, k.rcv, synOpts, nil)})
+		e, ok = c.Wait(matchTCP(k, func(d *dec) bool { return d.flags&(wire.SYN|wire.ACK|wire.RST) == wire.ACK && d.ack == k.iss+1 }), c.wait)
+		if !ok {
+			return fmt.Errorf("active open: no ACK of the SYN-ACK within %v", c.wait)
+		}
+		win = e.d.win
+		select {
+		case <-ch:
+		case <-time.After(c.wait):
+			return fmt.Errorf("active open: Connect did not complete within %v", c.wait)
+		}
+		wq.EventUnregister(&we)
+		go echoLoop(ep, wq)
+	}
+	B := k.iss + 1
+	blk := func(i int) []byte { return wire.Pattern(slot*31+i, 5) }
+	seg := func(fl uint8, off uint32, opts, pay []byte) {
+		send(pkt{Nic: 1, Proto: 0x0800, Parts: [][]byte{k.seg(fl, B+off, k.rcv, opts, pay)}})
+	}
+	A, F, P := uint8(wire.ACK), uint8(wire.FIN|wire.ACK), uint8(wire.PSH|wire.ACK)
+	for _, x := range vh.List(cs.C["ls"]) {
+		switch vh.Str(x) {
+		case "D0":
+			seg(P, 0, nil, blk(0))
+		case "D1":
+			seg(P, 5, nil, blk(1))
+		case "D2":
+			seg(P, 10, nil, blk(2))
+		case "D1F":
+			seg(F|wire.PSH, 5, nil, blk(1))
+		case "D2F":
+			seg(F|wire.PSH, 10, nil, blk(2))
+		case "OV":
+			seg(P, 3, nil, append(append([]byte{}, blk(0)[3:]...), blk(1)[:3]...))
+		case "F0":
+			seg(F, 0, nil, nil)
+		case "F1":
+			seg(F, 5, nil, nil)
+		case "F2":
+			seg(F, 10, nil, nil)
+		case "Z1":
+			seg(A, 5, nil, nil)
+		case "RI":
+			seg(wire.RST, 0, nil, nil)
+		case "RO":
+			seg(wire.RST, 0x50000000, nil, nil)
+		case "WE":
+			seg(P, uint32(win)-2, nil, wire.Pattern(slot, 5))
+		case "U0":
+			b := k.seg(P|wire.URG, B, k.rcv, nil, blk(0))
+			hl := int(b[0]&0xf) * 4
+			be.PutUint16(b[hl+18:], 3) // urgent pointer
+			peer, own, _ := addrs(4, 1)
+			fixTCPSum(peer, own, b[hl:])
+			send(pkt{Nic: 1, Proto: 0x0800, Parts: [][]byte{b}})
+		case "BO":
+			seg(P, 0, []byte{1, 1, 8, 10}, blk(0)) // timestamp option cut after its length byte
+		case "SK":
+			seg(P, 5, wire.PadOpts(wire.OptSACK([]wire.SACKBlock{{Start: k.rcv + 100, End: k.rcv + 200}})), blk(1))
+		case "SY":
+			send(pkt{Nic: 1, Proto: 0x0800, Parts: [][]byte{k.seg(wire.SYN, k.iss, 0, synOpts, nil)}})
+		default:
+			vh.Fatal("eseq letter %v", x)
+		}
+	}
+	if !dry { // reset whatever is left of the connection
+		for _, off := range []uint32{0, 5, 10, 11, 15, 16} {
+			c.Inject(1, 0x0800, [][]byte{k.seg(wire.RST, B+off, 0, nil, nil)})
+		}
 	}
 	return nil
 }
